@@ -162,6 +162,7 @@ def plan_add(w: World, op: dict) -> Plan:
     reasons = []  # refusal reasons
     trigger = f"add-{api}"
     self_copy_deep = False
+    subclass_target = False
 
     # ---- position
     real_before = None
@@ -217,12 +218,18 @@ def plan_add(w: World, op: dict) -> Plan:
         elif not typed and smt.typed:
             return Plan(EXCLUDED, why="typed source into untyped tree")
         elif not isinstance(real_src, type(w.slots[si].real)):
-            return Plan(EXCLUDED, why="source tree class is not the target's class")
+            if not isinstance(w.slots[si].real, type(real_src)):
+                return Plan(EXCLUDED, why="unrelated tree classes")
+            # the target's class is derived from the source's class (a user subclass,
+            # FileSystemTree): "If child is a Tree, all of its topnodes are added"
+            subclass_target = True
         eff_deep = True if deep is None else bool(deep)
         for t in sroot.children:
             new_tops.append(copy_subtree(t, uidgen, deep=eff_deep))
         child_real = real_src
         trigger += "/tree"
+        if subclass_target:
+            trigger += "/into-subclass-tree"
         if self_copy and (eff_deep or P.is_root()):
             trigger += "/into-itself"
             self_copy_deep = True
@@ -927,10 +934,19 @@ def plan_fromdict(w: World, op: dict) -> Plan:
     except TypeError:
         return Plan(EXCLUDED, why="unhashable data without data_id")
 
+    use_mapper = bool(op.get("mapper"))
+
+    def mapper(parent, item):
+        # "mapper may add item['data_id']"; returns the data object of the new node
+        w.fault.tick("mapper")
+        return item["data"]
+
     def call():
+        if use_mapper:
+            return rn.from_dict(new_r, mapper=mapper)
         return rn.from_dict(new_r)
 
-    trigger = "fromdict"
+    trigger = "fromdict" + ("/mapper" if use_mapper else "")
     if collide:
         return Plan(REFUSE, why="duplicate-sibling", refuse=UNIQUE, call=call, owner="C13",
                     trigger=trigger + "/duplicate-sibling", slots=(si,))
@@ -940,7 +956,11 @@ def plan_fromdict(w: World, op: dict) -> Plan:
             nm.insert(m, None)
         return None
 
-    return Plan(OK, call=call, apply=apply, owner="C14", trigger=trigger, slots=(si,))
+    # a mapper that raises half way: C13 asks for a well-formed tree, not for an
+    # unchanged one - nodes created before the fault may stay below the target
+    allowed = [m.data for t in new_m for m in [t, *t.iter_pre()]]
+    return Plan(OK, call=call, apply=apply, owner="C14", trigger=trigger, slots=(si,),
+                fault_bound=("grow", nm.uid, op["id"], allowed))
 
 
 # ------------------------------------------------------------------------------
